@@ -84,6 +84,8 @@ type Limits struct {
 	// Determinism turns the run into the C19 check: every state is rebuilt from
 	// scratch and its key and output hash must equal those obtained incrementally.
 	Determinism bool
+	// Convergence: the run is the C15 check (executions that never fall silent are violations).
+	Convergence bool
 	// ValidateEvery: every n-th complete D-DFS execution is re-run from scratch (0 = default 10).
 	ValidateEvery int
 }
